@@ -106,13 +106,10 @@ func (r *MMapReader) SeekNext(offset uint64) (uint64, []byte, error) {
 			trialOffset := uint64(next) + uint64(i)
 			record, err := r.ReadNextAt(trialOffset)
 			if err != nil {
-				if errors.Is(err, HeaderChecksumMismatchErr) || errors.Is(err, MagicNumberMismatchErr) || errors.Is(err, io.EOF) {
-					// try to seek again, the record couldn't be read fully
-					i = ix
-					continue
-				}
-
-				return 0, nil, err
+				// try to seek again: the marker bytes can occur inside a payload, and what follows them there can
+				// fail to parse in any way (checksum or magic mismatch, end of file, a length varint that overflows)
+				i = ix
+				continue
 			} else {
 				return trialOffset, record, nil
 			}
